@@ -427,8 +427,20 @@ func ruleValidateAgrees(c *Ctx, a *reloadAnchors) {
 		if !ok || !strings.HasPrefix(t, mainPkg+".") {
 			return
 		}
-		if al, isLocal := fa.X.(*ssa.Alloc); isLocal && !al.Heap || isLocal {
-			pure, at = false, st
+		if al, isLocal := fa.X.(*ssa.Alloc); isLocal {
+			// a local that holds a *copy* of something (it is also assigned as a whole: the range variable, `x := cfg.A[i]`);
+			// a composite literal of a helper type (a map key, say) is only ever filled field by field and is no copy
+			isCopy := false
+			for _, r := range *al.Referrers() {
+				if ws, isSt := r.(*ssa.Store); isSt && ws.Addr == ssa.Value(al) {
+					if _, isConst := ws.Val.(*ssa.Const); !isConst {
+						isCopy = true
+					}
+				}
+			}
+			if isCopy {
+				pure, at = false, st
+			}
 		}
 	})
 	pos := p.Pos(val.Pos())
